@@ -233,6 +233,25 @@ Fixpoint json_of_hlayout (h : htype) : json :=
   | _ => JArr [JStr "l"; JNum (hsize h)]
   end.
 
+Fixpoint json_of_htype (h : htype) : json :=
+  match h with
+  | HS => JArr [JStr "s"]
+  | HV n => JArr [JStr "v"; JNum n]
+  | HM r c => JArr [JStr "m"; JNum r; JNum c]
+  | HA e n => JArr [JStr "arr"; json_of_htype e; JNum n]
+  | HStruct fs => JArr [JStr "st"; JArr (map (fun f => match f with (p, c') => JArr [JBool p; json_of_htype c'] end) fs)]
+  end.
+
+Definition do_hlsldef (j : json) : json :=
+  match field "t" j with
+  | Some tj =>
+      match ty_of tj with
+      | Some t => JObj [("ok", JBool true); ("def", json_of_htype (hlsl_def t))]
+      | None => JObj [("ok", JBool false); ("err", JStr "bad type tree")]
+      end
+  | None => JObj [("ok", JBool false); ("err", JStr "no t")]
+  end.
+
 Definition do_hlslcb (j : json) : json :=
   match field "h" j with
   | Some hj =>
@@ -245,6 +264,7 @@ Definition do_hlslcb (j : json) : json :=
 
 Definition entry (j : json) : json :=
   match field_str "op" j with
-  | Some op => if String.eqb op "hlslcb" then do_hlslcb j else entry1 j
+  | Some op => if String.eqb op "hlslcb" then do_hlslcb j
+               else if String.eqb op "hlsldef" then do_hlsldef j else entry1 j
   | None => entry1 j
   end.
